@@ -45,13 +45,19 @@ fn truncate_str_impl<'a>(
     };
     let mut used = measure_text_width(&result_tail);
     let mut result = String::new();
+    let mut truncated = false;
     for (t, is_ansi) in items {
         if !is_ansi {
+            if truncated {
+                // Only ANSI sequences are still taken from the rest of the string.
+                continue;
+            }
             for g in t.graphemes(true) {
                 let width_of_grapheme = g.width();
                 if used + width_of_grapheme > display_width {
                     // Handle case "2." mentioned in `truncate_str` docs and fill the
                     // hole left by double-width (2w) truncation.
+                    truncated = true;
                     if let Some(fillchar) = fill2w {
                         if width_of_grapheme == 2 && used < display_width {
                             result.push(fillchar);
